@@ -694,8 +694,11 @@ META["C09"] = dict(level="model_checking", engine="backends", design_ref="DESIGN
          "renumbering) and the hash store (maps of maps, fresh counter) as two concrete machines next to the abstract graph; TLC exhausts "
          "all operation sequences up to the bound for the representation invariants and refinement; long random histories of the real "
          "backends are validated operation by operation (full observable of both after every call) against the abstract model in tag space, "
-         "including compaction, clone independence, sub-graph and append.",
-    note="enumeration order and edge orientation are not observable (sorted before logging); allocator names are only checked as L1 drift")
+         "including compaction, clone independence, sub-graph and append. In the other direction TLC prints one operation history for every "
+         "distinct reachable state of the two storage machines (mc/MC_BackendsReplay.tla) with the public state the specification predicts "
+         "(exact vertex names, vindex, counts, lists, edges); each is executed on both real backends and must end in the predicted state.",
+    note="enumeration order and edge orientation are not observable (sorted before logging); allocator names are only checked as L1 drift",
+    technique_override="explicit TLA+ specification; TLC exhaustive model checking of the spec + replay of TLC-generated behaviours into the real code + TLC trace validation of recorded executions of the real code")
 META["C05"] = dict(level="model_checking", engine="decomp", design_ref="DESIGN.md section 3 C05", technique=TECH,
     text="spec/Decomp.tla transcribes all 20 replace_* constructors with their hard-coded Z[omega] scalars and the dispatchers (cat "
          "pi-normalisation, padding); TLC verifies StepSum exhaustively over host families for every decomposition kind and validates every "
@@ -709,7 +712,10 @@ META["C06"] = dict(level="model_checking", engine="sim", design_ref="DESIGN.md s
          "binary: guarded hooks expose the exact scalar behind every printed number and every Bernoulli draw of the sampler, so TLC decides "
          "that each is exactly the amplitude / expectation / marginal required, that the sampler uses the conditional probability, that printed "
          "samples have non-zero probability, and that malformed queries are rejected without a panic.",
-    note="<=3 qubits, <=8 gates; floating point (printed decimals, p) compared at 1e-9 in the harness; distribution of the PRNG not tested")
+    note="<=3 qubits, <=8 gates (deep trace: 30-60 gates); floating point (printed decimals, p) compared at 1e-9 in the harness; distribution of the PRNG not tested; "
+         "circuits with angles that are not multiples of pi/4 (`generic` trace) have no exact value in the ring: printed probabilities / expectation values, hooked "
+         "marginals and the sampler's conditional probabilities are compared with the harness's float reference state vector (refeval.rs, validated by TLC against "
+         "CircSem on the exact fragment) and TLC judges the logged booleans")
 META["C07"] = dict(level="model_checking", engine="scalar", design_ref="DESIGN.md section 3 C07", technique=TECH,
     text="Two layers. spec/Ring.tla is the algebraic specification of Scalar4 (model-checked ring laws). spec/Dyadic.tla on spec/BigNat.tla "
          "(arbitrary-precision naturals written in TLA+) specifies the 64-bit-mantissa format; the format cannot be enumerated, so TLC "
@@ -726,7 +732,7 @@ ENGINES = [
     {"name": "decomp", "path": "spec/Decomp.tla spec/DecompPar.tla mc/MC_Decomp.tla mc/MC_DecompPar.tla mc/Trace_Decomp.tla harness/src/eng_decomp.rs",
      "serves_properties": ["C05"], "kind_free_text": "TLC exhaustive StepSum + fork-join model + trace validation of steps, runs and saved terms"},
     {"name": "backends", "path": "spec/Backends.tla mc/MC_Backends.tla mc/Trace_Backends.tla harness/src/eng_backends.rs",
-     "serves_properties": ["C09"], "kind_free_text": "TLC exhaustive op sequences on two storage machines + trace validation of real histories"},
+     "serves_properties": ["C09"], "kind_free_text": "TLC exhaustive op sequences on two storage machines + replay of one TLC-generated history per distinct spec state into both real backends (mc/MC_BackendsReplay.tla) + trace validation of real histories"},
     {"name": "eqcheck", "path": "spec/Equality.tla mc/MC_Equal.tla mc/Trace_Eq.tla harness/src/eng_circ.rs",
      "serves_properties": ["C12"], "kind_free_text": "TLC exhaustive checker algorithm + trace validation of answers"},
     {"name": "extract", "path": "spec/Circuit.tla mc/Trace_Extract.tla harness/src/eng_circ.rs",
